@@ -209,3 +209,38 @@ func factFeasible(fa *Facts) func(state int, pred, succ *ssa.BasicBlock) bool {
 		return true
 	}
 }
+
+// ipEvent lifts an event predicate over instructions to calls of same-module
+// helpers that pass the event on every path (bounded depth).
+func ipEvent(pred func(ssa.Instruction) bool, depth int) func(ssa.Instruction) bool {
+	var self func(in ssa.Instruction) bool
+	memo := map[*ssa.Function]int{} // 1 = always passes, 2 = not, 3 = in progress
+	self = func(in ssa.Instruction) bool {
+		if pred(in) {
+			return true
+		}
+		if depth <= 0 {
+			return false
+		}
+		ci := callInfo(in, nil, 0)
+		if ci == nil || ci.Static == nil || !inModule(ci.Static) || ci.Static.Blocks == nil || ci.Kind == "go" {
+			return false
+		}
+		g := ci.Static
+		switch memo[g] {
+		case 1:
+			return true
+		case 2, 3:
+			return false
+		}
+		memo[g] = 3
+		inner := ipEvent(pred, depth-1)
+		if len(MustPass(g, nil, inner)) == 0 && len(returnsOf(g)) > 0 {
+			memo[g] = 1
+			return true
+		}
+		memo[g] = 2
+		return false
+	}
+	return self
+}
